@@ -961,7 +961,7 @@ func printCallgrind(w io.Writer, rpt *Report) error {
 
 		// Print outgoing edges.
 		for _, out := range n.Out.Sort() {
-			c, _ := measurement.Scale(out.Weight, o.SampleUnit, o.OutputUnit)
+			c, _ := measurement.Scale(out.WeightValue(), o.SampleUnit, o.OutputUnit)
 			callee := out.Dest
 			fmt.Fprintln(w, "cfl="+callgrindName(files, callee.Info.File))
 			fmt.Fprintln(w, "cfn="+callgrindName(names, nodeNames[callee]))
